@@ -3,15 +3,88 @@ use crate::chan::Norm;
 use crate::oracle::{check_ledger, pair};
 use crate::rt::{self, oracle_fail, Id, Op, Res, P};
 use crate::scen::{Body, Scenario};
-use fibre::spmc::{BoundedSyncReceiver as Rx, BoundedSyncSender as Tx};
+use crate::exec::{block_on, new_waker, poll_once};
+use fibre::spmc::{BoundedAsyncReceiver, BoundedAsyncSender, BoundedSyncReceiver, BoundedSyncSender};
 use std::collections::BTreeMap;
+use std::task::Poll;
+
+/// sync or async handle pair behind one interface (async operations run on the mini executor)
+pub enum Tx<T: Send + Clone> {
+    S(BoundedSyncSender<T>),
+    A(BoundedAsyncSender<T>),
+}
+pub enum Rx<T: Send + Clone> {
+    S(BoundedSyncReceiver<T>),
+    A(BoundedAsyncReceiver<T>),
+}
+impl Tx<P> {
+    fn send(&self, p: P) -> Res {
+        match self {
+            Tx::S(s) => s.send(p).norm(),
+            Tx::A(s) => block_on(s.send(p)).norm(),
+        }
+    }
+    fn try_send(&self, p: P) -> Res {
+        match self {
+            Tx::S(s) => s.try_send(p).norm(),
+            Tx::A(s) => s.try_send(p).norm(),
+        }
+    }
+    fn send_batch(&self, v: Vec<P>) -> Res {
+        match self {
+            Tx::S(s) => s.send_batch(v).norm(),
+            Tx::A(s) => block_on(s.send_batch(v)).norm(),
+        }
+    }
+}
+impl Rx<P> {
+    fn recv(&self) -> Res {
+        match self {
+            Rx::S(r) => r.recv().norm(),
+            Rx::A(r) => block_on(r.recv()).norm(),
+        }
+    }
+    fn try_recv(&self) -> Res {
+        match self {
+            Rx::S(r) => r.try_recv().norm(),
+            Rx::A(r) => r.try_recv().norm(),
+        }
+    }
+    /// async only: create the recv future, poll it once, drop it
+    fn recv_poll_drop(&self) -> Res {
+        match self {
+            Rx::S(_) => panic!("MACHINERY|recv future on a sync handle"),
+            Rx::A(r) => {
+                let (_wk, waker) = new_waker();
+                let mut fut = Box::pin(r.recv());
+                let x = poll_once(fut.as_mut(), &waker);
+                drop(fut);
+                match x {
+                    Poll::Ready(v) => v.norm(),
+                    Poll::Pending => Res::Pending,
+                }
+            }
+        }
+    }
+}
+impl Clone for Rx<P> {
+    fn clone(&self) -> Self {
+        match self {
+            Rx::S(r) => Rx::S(r.clone()),
+            Rx::A(r) => Rx::A(r.clone()),
+        }
+    }
+}
 
 #[derive(Clone, Debug)]
 pub enum BStep {
     Send(Id),
     TrySend(Id),
+    SendBatch(Vec<Id>),
     Recv,
     TryRecv,
+    /// async: recv future polled once and dropped
+    RecvPollDrop,
     /// recv until Disconnected
     Drain,
     /// clone the thread's receiver; the clone becomes the thread's second receiver (handle 2)
@@ -35,6 +108,8 @@ pub struct BcastScen {
     /// receivers that exist before anything is sent (R0, and R1 = R0.clone())
     pub n_rx: u8,
     pub threads: Vec<BThread>,
+    /// async handles on both sides (`spmc::bounded_async`)
+    pub asyn: bool,
 }
 
 const MAX_DRAIN: usize = 10;
@@ -47,29 +122,40 @@ fn run_thread(t: u8, prog: BThread, mut tx: Option<Tx<P>>, mut rx: Option<Rx<P>>
             BStep::Send(id) => {
                 let op = Op::Send(id);
                 rt::log_call(t, 0, &op);
-                let r = tx.as_ref().expect("tx").send(P::new(id)).norm();
+                let r = tx.as_ref().expect("tx").send(P::new(id));
                 rt::log_ret(t, 0, &op, r, true);
             }
             BStep::TrySend(id) => {
                 let op = Op::TrySend(id);
                 rt::log_call(t, 0, &op);
-                let r = tx.as_ref().expect("tx").try_send(P::new(id)).norm();
+                let r = tx.as_ref().expect("tx").try_send(P::new(id));
                 rt::log_ret(t, 0, &op, r, true);
+            }
+            BStep::SendBatch(ids) => {
+                let op = Op::SendBatch(ids.clone());
+                rt::log_call(t, 0, &op);
+                let r = tx.as_ref().expect("tx").send_batch(ids.iter().map(|&i| P::new(i)).collect());
+                rt::log_ret(t, 0, &op, r, true);
+            }
+            BStep::RecvPollDrop => {
+                rt::log_call(t, rh, &Op::RecvPollDrop);
+                let r = rx.as_ref().expect("rx").recv_poll_drop();
+                rt::log_ret(t, rh, &Op::RecvPollDrop, r, true);
             }
             BStep::Recv => {
                 rt::log_call(t, rh, &Op::Recv);
-                let r = rx.as_ref().expect("rx").recv().norm();
+                let r = rx.as_ref().expect("rx").recv();
                 rt::log_ret(t, rh, &Op::Recv, r, true);
             }
             BStep::TryRecv => {
                 rt::log_call(t, rh, &Op::TryRecv);
-                let r = rx.as_ref().expect("rx").try_recv().norm();
+                let r = rx.as_ref().expect("rx").try_recv();
                 rt::log_ret(t, rh, &Op::TryRecv, r, true);
             }
             BStep::Drain => {
                 for _ in 0..MAX_DRAIN {
                     rt::log_call(t, rh, &Op::Recv);
-                    let r = rx.as_ref().expect("rx").recv().norm();
+                    let r = rx.as_ref().expect("rx").recv();
                     let done = r == Res::Disc;
                     rt::log_ret(t, rh, &Op::Recv, r, true);
                     if done {
@@ -95,7 +181,7 @@ fn run_thread(t: u8, prog: BThread, mut tx: Option<Tx<P>>, mut rx: Option<Rx<P>>
                         }
                         let (r, h) = if k == 0 { (rx.as_ref().unwrap(), rh) } else { (rx2.as_ref().unwrap(), 2) };
                         rt::log_call(t, h, &Op::TryRecv);
-                        let res = r.try_recv().norm();
+                        let res = r.try_recv();
                         let outcome = !(res == Res::Empty && last_empty[k]);
                         last_empty[k] = res == Res::Empty;
                         match res {
@@ -139,7 +225,13 @@ fn join_all(t: u8, joins: &mut Vec<loom::thread::JoinHandle<()>>) {
 }
 
 pub fn run_once(sc: &BcastScen) {
-    let (tx, rx0) = fibre::spmc::bounded::<P>(sc.cap);
+    let (tx, rx0) = if sc.asyn {
+        let (t, r) = fibre::spmc::bounded_async::<P>(sc.cap);
+        (Tx::A(t), Rx::A(r))
+    } else {
+        let (t, r) = fibre::spmc::bounded::<P>(sc.cap);
+        (Tx::S(t), Rx::S(r))
+    };
     let mut rxs: Vec<Option<Rx<P>>> = vec![None, None];
     if sc.n_rx > 1 {
         rxs[1] = Some(rx0.clone());
@@ -176,6 +268,22 @@ fn check(sc: &BcastScen) {
     for o in &ops {
         match (&o.op, &o.res) {
             (Op::Send(id) | Op::TrySend(id), Res::Ok) => sent.push((*id, o.call, o.ret)),
+            (Op::SendBatch(ids), Res::BatchOk(n)) => {
+                if *n != ids.len() {
+                    oracle_fail("C07", "batch_count", "send_batch", &format!("Ok({}) for a batch of {}", n, ids.len()));
+                }
+                for id in ids {
+                    sent.push((*id, o.call, o.ret));
+                }
+            }
+            (Op::SendBatch(ids), Res::BatchErr { sent: k, unsent }) => {
+                if *k > ids.len() || ids[*k..] != unsent[..] {
+                    oracle_fail("C07", "batch_handback", "send_batch", &format!("input {:?} sent {} unsent {:?}", ids, k, unsent));
+                }
+                for id in &ids[..*k] {
+                    sent.push((*id, o.call, o.ret));
+                }
+            }
             (Op::Send(id) | Op::TrySend(id), Res::Full(b) | Res::Closed(Some(b))) => {
                 if b != id {
                     oracle_fail("C07", "handback_wrong_value", "try_send", &format!("sent {} got back {}", id, b));
@@ -209,14 +317,14 @@ fn check(sc: &BcastScen) {
                 let start = rs.get(&parent).map(|r| r.start + r.got.len()).unwrap_or(0);
                 rs.insert(o.h, R { start, created: o.ret, drop_call: usize::MAX, got: vec![], disc: None });
             }
-            (Op::Recv | Op::TryRecv, Res::Val(v)) => {
+            (Op::Recv | Op::TryRecv | Op::RecvPollDrop, Res::Val(v)) => {
                 let r = rs.get_mut(&o.h).expect("receiver");
                 if let Some(d) = r.disc {
                     oracle_fail("C07", "value_after_disconnected", "recv", &format!("R{} obtained {} after Disconnected at log position {}", o.h, v, d));
                 }
                 r.got.push((*v, o.call));
             }
-            (Op::Recv | Op::TryRecv, Res::Disc) => {
+            (Op::Recv | Op::TryRecv | Op::RecvPollDrop, Res::Disc) => {
                 if o.ret < tx_drop_call {
                     oracle_fail("C07", "disconnected_while_sender_alive", "recv", &format!("R{} observed Disconnected before the sender started dropping", o.h));
                 }
@@ -278,18 +386,21 @@ fn bt(tx: bool, rx: Option<u8>, steps: Vec<BStep>) -> BThread {
 }
 
 fn sc(name: &str, cap: usize, n_rx: u8, threads: Vec<BThread>, pb: (Option<usize>, Option<usize>)) -> Scenario {
+    sc_x(name, cap, n_rx, threads, pb, false)
+}
+fn sc_x(name: &str, cap: usize, n_rx: u8, threads: Vec<BThread>, pb: (Option<usize>, Option<usize>), asyn: bool) -> Scenario {
     let shape = format!("{}_cap{}", name, cap);
     Scenario {
         name: format!("spmc_broadcast/{}", shape),
         component: "spmc_broadcast".into(),
         shape,
-        props: vec!["C07", "C05", "C09"],
+        props: if asyn { vec!["C07", "C06", "C09"] } else { vec!["C07", "C05", "C09"] },
         threads: threads.len(),
         ops: threads.iter().map(|t| t.steps.len()).max().unwrap_or(0),
         cap: cap.to_string(),
         pb_quick: pb.0,
         pb_thorough: pb.1,
-        body: Body::Bcast(BcastScen { cap, n_rx, threads }),
+        body: Body::Bcast(BcastScen { cap, n_rx, threads, asyn }),
     }
 }
 
@@ -332,5 +443,18 @@ fn base_scenarios() -> Vec<Scenario> {
         sc("clone_vs_send2", 2, 1, vec![bt(true, None, vec![Send(1), Send(2)]), bt(false, Some(0), vec![TryRecv, CloneRx, DrainBothTry])], t2),
         // sender dropped while a receiver is parked
         sc("txdrop_vs_recv", 1, 1, vec![bt(false, Some(0), vec![TryRecv, Recv]), bt(true, None, vec![])], t2),
+        // batch of two through capacity 1 (the producer parks mid-batch) and capacity 2
+        sc("send_batch2_drain", 1, 1, vec![bt(false, Some(0), vec![TryRecv, Drain]), bt(true, None, vec![SendBatch(vec![1, 2])])], t2),
+        sc("send_batch2_then_send_drain", 2, 1, vec![bt(false, Some(0), vec![Drain]), bt(true, None, vec![SendBatch(vec![1, 2]), Send(3)])], t2),
+        // ---- async handles on the mini executor (producer waker = AtomicWaker, hook H5)
+        sc_x("async_1p1c_send2_drain", 1, 1, vec![bt(false, Some(0), vec![TryRecv, Drain]), bt(true, None, vec![Send(1), Send(2)])], t2, true),
+        sc_x("async_1p1c_send3_drain", 2, 1, vec![bt(false, Some(0), vec![Drain]), bt(true, None, vec![Send(1), Send(2), Send(3)])], t2, true),
+        sc_x("async_1p2c_send2_drain", 1, 2, vec![bt(true, None, vec![Send(1), Send(2)]), bt(false, Some(0), vec![Drain]), bt(false, Some(1), vec![Drain])], t3, true),
+        sc_x("async_rxdrop_vs_pending_producer", 1, 1, vec![bt(true, None, vec![Send(1), Send(2)]), bt(false, Some(0), vec![DropRx])], t2, true),
+        sc_x("async_slow_rx_dropped_vs_pending_producer", 1, 2, vec![bt(true, None, vec![Send(1), Send(2)]), bt(false, Some(0), vec![Drain]), bt(false, Some(1), vec![DropRx])], t3, true),
+        sc_x("async_recvfut_drop_vs_send", 1, 1, vec![bt(false, Some(0), vec![RecvPollDrop, Drain]), bt(true, None, vec![Send(1)])], t2, true),
+        sc_x("async_txdrop_vs_recv", 1, 1, vec![bt(false, Some(0), vec![TryRecv, Recv]), bt(true, None, vec![])], t2, true),
+        sc_x("async_send_batch2_drain", 1, 1, vec![bt(false, Some(0), vec![Drain]), bt(true, None, vec![SendBatch(vec![1, 2])])], t2, true),
+        sc_x("async_clone_vs_send2", 1, 1, vec![bt(true, None, vec![Send(1), Send(2)]), bt(false, Some(0), vec![TryRecv, CloneRx, DrainBothTry])], t2, true),
     ]
 }
